@@ -1,0 +1,56 @@
+//go:build verif
+
+// Contracts for package p2p, checked by /verif (govc). Comment-only file: with the
+// verif tag off it is not part of the build, with it on it adds only this package clause.
+package p2p
+
+// ---------------------------------------------------------------- gossip signature domains (C03)
+
+//@ func heartbeatDigest(b []byte) (h common.Hash)
+//@   props C03
+//@   ensures [prefixed] h == keccak(catbytes(heartbeatMessagePrefix, b))
+//@   nopanic
+
+//@ func signedObservationRequestDigest(b []byte) (h common.Hash)
+//@   props C03
+//@   ensures [prefixed] h == keccak(catbytes(signedObservationRequestPrefix, b))
+//@   nopanic
+
+// The two domain prefixes (package variables that no function of the package assigns).
+//@ lemma domain_prefixes()
+//@   props C03
+//@   ensures [heartbeat] len(heartbeatMessagePrefix) == 10 && heartbeatMessagePrefix[0] == 104 && heartbeatMessagePrefix[9] == 124
+//@   ensures [request] len(signedObservationRequestPrefix) == 27 && signedObservationRequestPrefix[0] == 115 && signedObservationRequestPrefix[26] == 124
+
+// A string signed as a heartbeat is never a string signed as a re-observation request, and
+// neither - being at least 34 bytes - is the 32-byte pre-image of a VAA digest.
+//@ lemma domain_separation(b1 []byte, b2 []byte)
+//@   props C03
+//@   requires 10 + len(b1) >= 34 && 27 + len(b2) >= 34
+//@   ensures [heartbeat-is-not-request] catbytes(heartbeatMessagePrefix, b1)[0] != catbytes(signedObservationRequestPrefix, b2)[0]
+//@   ensures [never-a-digest-preimage] len(catbytes(heartbeatMessagePrefix, b1)) != 32 && len(catbytes(signedObservationRequestPrefix, b2)) != 32
+
+// signedBy(d, sig, a): sig is a 65-byte signature over digest d that recovers to address a
+//@ pred signedBy(d [32]byte, sig []byte, a common.Address) = len(sig) == 65 && ecrec_ok(d, from65(sig)) && vaa.pk2addr(ecrec(d, from65(sig))) == a
+
+//@ func processSignedHeartbeat(from peer.ID, s *gossipv1.SignedHeartbeat, gs *node_common.GuardianSet, gst *node_common.GuardianSetState, disableVerify bool) (hb *gossipv1.Heartbeat, err error)
+//@   props C03
+//@   requires s != nil && gs != nil && gst != nil && node_common.hbTable(gst)
+//@   requires [verification-on] !disableVerify
+//@   ensures [accept-only-member] err == nil ==> (exists n in 0..len(gs.Keys) :: gs.Keys[n] == b2a(s.GuardianAddr))
+//@   ensures [accept-only-long] err == nil ==> 10 + len(s.Heartbeat) >= 34
+//@   ensures [accept-only-signed] err == nil ==> signedBy(keccak(catbytes(heartbeatMessagePrefix, s.Heartbeat)), s.Signature, b2a(s.GuardianAddr))
+//@   ensures [reject-no-effect] err != nil ==> hb == nil && unchanged("map[peer.ID]*gossipv1.Heartbeat") && unchanged("map[common.Address]map[peer.ID]*gossipv1.Heartbeat")
+//@   ensures [table-capped] node_common.hbTable(gst)
+//@   modifies map[peer.ID]*gossipv1.Heartbeat, map[common.Address]map[peer.ID]*gossipv1.Heartbeat, chan, fresh gossipv1.Heartbeat.*
+//@   nopanic
+
+//@ func processSignedObservationRequest(s *gossipv1.SignedObservationRequest, gs *node_common.GuardianSet) (r *gossipv1.ObservationRequest, err error)
+//@   props C03
+//@   requires s != nil && gs != nil
+//@   ensures [accept-only-member] err == nil ==> (exists n in 0..len(gs.Keys) :: gs.Keys[n] == b2a(s.GuardianAddr))
+//@   ensures [accept-only-long] err == nil ==> 27 + len(s.ObservationRequest) >= 34
+//@   ensures [accept-only-signed] err == nil ==> signedBy(keccak(catbytes(signedObservationRequestPrefix, s.ObservationRequest)), s.Signature, b2a(s.GuardianAddr))
+//@   ensures [reject-returns-nothing] err != nil ==> r == nil
+//@   modifies fresh gossipv1.ObservationRequest.*
+//@   nopanic
